@@ -1,106 +1,218 @@
 import A2Verif.Lemmas.TrackImgCreate
 /-!
-`Nib::create`, `Woz1::create`, `Woz2::create` (13 and 16 sectors) establish `ImgInv`.
+`Nib::create`, `Woz1::create`, `Woz2::create` (13 and 16 sectors) and `Nib::from_bytes` of an NB2 file establish
+`ImgInv`.
 -/
 namespace A2Verif.Model.TrackImg
 open A2Verif.Model.Track A2Verif.Model.Nibble
 
-def capOf : ImgKind → Nat
+/-- the containers: the three `create` makes, and NB2 (`Nib::from_bytes` of 35 × 6384 bytes; here a created NIB
+with every track cut to 6384 bytes) -/
+inductive Variant
+  | nib
+  | nb2
+  | woz1
+  | woz2
+deriving DecidableEq, Repr
+
+/-- the image of a variant as the Rust object holds it right after `create` / `from_bytes` -/
+def createV (v : Variant) (six : Bool) (vol : Nat) : TrackImg :=
+  match v with
+  | .nib => create Trk .nib six vol
+  | .woz1 => create Trk .woz1 six vol
+  | .woz2 => create Trk .woz2 six vol
+  | .nb2 =>
+    { kind := .nib, six := six, tmap := [], ents := [], offset := 0, trkCap := nb2Cap, headPtr := none,
+      bytes := nb2Bytes (create Trk .nib six vol).bytes }
+
+def capOf : Variant → Nat
   | .nib => nibCap
+  | .nb2 => nb2Cap
   | .woz1 => woz1Cap
   | .woz2 => woz2Blocks * 512
 
-/-- the format the formatter of an image kind uses -/
-def fOf (kind : ImgKind) (six : Bool) : Fmt :=
-  ⟨six, (match kind with | .nib => 8 | _ => if six then 10 else 9), capOf kind⟩
+/-- the format `new_rw_obj` uses for the variant -/
+def fOf (v : Variant) (six : Bool) : Fmt :=
+  ⟨six, (match v with | .nib => 8 | .nb2 => 8 | _ => if six then 10 else 9), capOf v⟩
 
-/-- bits of the circular track: the whole buffer for NIB, `bit_count` for WOZ -/
-def nOf (kind : ImgKind) (six : Bool) : Nat :=
-  match kind with
+/-- bits of the circular track: the whole buffer for NIB / NB2, `bit_count` for WOZ -/
+def nOf (v : Variant) (six : Bool) : Nat :=
+  match v with
   | .nib => nibCap * 8
-  | _ => (fOf kind six).bitCount (secIds six).length
+  | .nb2 => nb2Cap * 8
+  | _ => (fOf v six).bitCount (secIds six).length
 
-/-- `FF` bytes behind the formatted bits that belong to the track (NIB only) -/
-def pOf (kind : ImgKind) (six : Bool) : Nat :=
-  match kind with
-  | .nib => (nibCap * 8 - (fOf kind six).bitCount (secIds six).length) / 8
+/-- `FF` bytes behind the formatted bits that belong to the track (NIB / NB2 only) -/
+def pOf (v : Variant) (six : Bool) : Nat :=
+  match v with
+  | .nib => (nibCap * 8 - (fOf v six).bitCount (secIds six).length) / 8
+  | .nb2 => (nb2Cap * 8 - (fOf v six).bitCount (secIds six).length) / 8
   | _ => 0
 
-def offsOf (kind : ImgKind) (t : Nat) : Nat :=
-  match kind with
+def offsOf (v : Variant) (t : Nat) : Nat :=
+  match v with
   | .nib => t * nibCap
+  | .nb2 => t * nb2Cap
   | .woz1 => t * woz1Cap
   | .woz2 => (3 + woz2Blocks * t) * 512 - 1536
 
-theorem fmtOf_create (kind : ImgKind) (six : Bool) (vol : Nat) : fmtOf (create Trk kind six vol) (capOf kind) = fOf kind six := by
-  cases kind <;> rfl
+theorem fmtOf_create (v : Variant) (six : Bool) (vol : Nat) : fmtOf (createV v six vol) (capOf v) = fOf v six := by
+  cases v <;> rfl
 
-theorem facts (kind : ImgKind) (six : Bool) :
-    8 ≤ (fOf kind six).syncBits ∧ (fOf kind six).bitCount (secIds six).length ≤ capOf kind * 8 ∧
-    nOf kind six = (fOf kind six).bitCount (secIds six).length + 8 * pOf kind six ∧
-    (pOf kind six = 0 ∨ (fOf kind six).z = 0) ∧ nOf kind six ≤ 8 * capOf kind ∧ 0 < nOf kind six ∧
-    16 + (fOf kind six).dataNibs + (60 + pOf kind six) + 3 ≤ (fOf kind six).maxTries ∧
-    (kind ≠ .nib → nOf kind six ≠ 0 ∧ nOf kind six ≤ capOf kind * 8) := by
-  cases kind <;> cases six <;> decide
+theorem facts (v : Variant) (six : Bool) :
+    8 ≤ (fOf v six).syncBits ∧ (fOf v six).bitCount (secIds six).length ≤ capOf v * 8 ∧
+    nOf v six = (fOf v six).bitCount (secIds six).length + 8 * pOf v six ∧
+    (pOf v six = 0 ∨ (fOf v six).z = 0) ∧ nOf v six ≤ 8 * capOf v ∧ 0 < nOf v six ∧
+    16 + (fOf v six).dataNibs + (60 + pOf v six) + 3 ≤ (fOf v six).maxTries ∧
+    (nOf v six ≠ 0 ∧ nOf v six ≤ capOf v * 8) := by
+  cases v <;> cases six <;> decide
 
-/-- the bytes `create` lays down: 35 formatted buffers of `capOf kind` bytes each -/
-theorem bytes_create (kind : ImgKind) (six : Bool) (vol : Nat) :
-    (create Trk kind six vol).bytes =
-      ((List.range 35).map fun t => formatBuf Trk (fOf kind six) vol t (capOf kind * 8)).flatten := by
-  cases kind <;> rfl
+/-- the formatter does not look at the buffer size: the bits it writes depend on codec and sync width only -/
+theorem trackW_congr (f f' : Fmt) (h6 : f.six = f'.six) (hs : f.syncBits = f'.syncBits) (vol trk : Nat) (ids : List Nat) :
+    trackW f vol trk ids = trackW f' vol trk ids := by
+  have hsec : ∀ id, secW f vol trk id = secW f' vol trk id := by
+    intro id; simp only [secW, syncW, Fmt.adrPro, h6, hs]
+  have hsecF : secW f vol trk = secW f' vol trk := funext hsec
+  simp only [trackW, syncW, hs, hsecF]
 
-theorem chunk_len (kind : ImgKind) (six : Bool) (vol : Nat) (i : Nat) :
-    (formatBuf Trk (fOf kind six) vol i (capOf kind * 8)).length = capOf kind :=
-  (formatBuf_unpack (fOf kind six) (facts kind six).1 vol i (capOf kind) (facts kind six).2.1).2
+theorem unpack_take (bs : List Nat) : ∀ k, unpack (bs.take k) = (unpack bs).take (8 * k) := by
+  induction bs with
+  | nil => intro k; simp [unpack]
+  | cons b bs ih =>
+    intro k
+    cases k with
+    | zero => simp [unpack]
+    | succ k =>
+      have h8 : (bitsOf b 8).length = 8 := bitsOf_length b 8
+      simp only [List.take_succ_cons, unpack, List.map_cons, List.flatten_cons] at ih ⊢
+      have e1 : (bitsOf b 8).take (8 + 8 * k) = bitsOf b 8 := List.take_of_length_le (by rw [h8]; omega)
+      rw [ih k, show 8 * (k + 1) = 8 + 8 * k by omega, List.take_append, h8, e1, Nat.add_sub_cancel_left]
 
-theorem bytes_create_length (kind : ImgKind) (six : Bool) (vol : Nat) :
-    (create Trk kind six vol).bytes.length = 35 * capOf kind := by
+/-- track buffer number `t` of the variant's image -/
+def chunkOf (v : Variant) (six : Bool) (vol t : Nat) : List Nat :=
+  match v with
+  | .nb2 => (formatBuf Trk (fOf .nib six) vol t (nibCap * 8)).take nb2Cap
+  | _ => formatBuf Trk (fOf v six) vol t (capOf v * 8)
+
+theorem chunk_facts (v : Variant) (six : Bool) (vol t : Nat) :
+    (chunkOf v six vol t).length = capOf v ∧
+    (unpack (chunkOf v six vol t)).take (nOf v six) =
+      trackW (fOf v six) vol t (secIds six) ++ List.replicate (8 * pOf v six) true := by
+  have hf := facts v six
+  have hWl := trackW_length (fOf v six) hf.1 vol t (secIds six)
+  have hsix : ∀ w, (fOf w six).six = six := fun w => rfl
+  cases v
+  · -- NIB: the whole buffer
+    have hu := formatBuf_unpack (fOf .nib six) hf.1 vol t (capOf .nib) hf.2.1
+    rw [hsix] at hu
+    refine ⟨hu.2, ?_⟩
+    show (unpack (formatBuf Trk (fOf .nib six) vol t (capOf .nib * 8))).take _ = _
+    rw [hu.1]
+    have h8 : capOf .nib * 8 - (fOf .nib six).bitCount (secIds six).length = 8 * pOf .nib six := by
+      cases six <;> decide
+    have hfill : decide ((fOf .nib six).syncBits ≤ 8) = true := by cases six <;> rfl
+    rw [h8, hfill]
+    apply List.take_of_length_le
+    rw [List.length_append, hWl, List.length_replicate]
+    have := hf.2.2.1
+    omega
+  · -- NB2: the first 6384 bytes of the NIB buffer
+    have hfn := facts .nib six
+    have hu := formatBuf_unpack (fOf .nib six) hfn.1 vol t (capOf .nib) hfn.2.1
+    rw [hsix] at hu
+    have hlen : (chunkOf .nb2 six vol t).length = nb2Cap := by
+      show ((formatBuf Trk (fOf .nib six) vol t (capOf .nib * 8)).take nb2Cap).length = nb2Cap
+      rw [List.length_take, hu.2]; decide
+    refine ⟨hlen, ?_⟩
+    show (unpack ((formatBuf Trk (fOf .nib six) vol t (capOf .nib * 8)).take nb2Cap)).take (nb2Cap * 8) = _
+    rw [unpack_take, hu.1, List.take_take, Nat.min_eq_left (by decide : nb2Cap * 8 ≤ 8 * nb2Cap)]
+    have hfill : decide ((fOf .nib six).syncBits ≤ 8) = true := by cases six <;> rfl
+    have hWn := trackW_length (fOf .nib six) hfn.1 vol t (secIds six)
+    rw [hfill, trackW_congr (fOf .nb2 six) (fOf .nib six) rfl rfl,
+      List.take_append, hWn, List.take_of_length_le (by rw [hWn]; cases six <;> decide), List.take_replicate]
+    congr 2
+    cases six <;> decide
+  · have hu := formatBuf_unpack (fOf .woz1 six) hf.1 vol t (capOf .woz1) hf.2.1
+    rw [hsix] at hu
+    refine ⟨hu.2, ?_⟩
+    show (unpack (formatBuf Trk (fOf .woz1 six) vol t (capOf .woz1 * 8))).take _ = _
+    have hp : pOf .woz1 six = 0 := rfl
+    rw [hu.1, hp, List.take_left' (by rw [hWl]; rfl)]; simp
+  · have hu := formatBuf_unpack (fOf .woz2 six) hf.1 vol t (capOf .woz2) hf.2.1
+    rw [hsix] at hu
+    refine ⟨hu.2, ?_⟩
+    show (unpack (formatBuf Trk (fOf .woz2 six) vol t (capOf .woz2 * 8))).take _ = _
+    have hp : pOf .woz2 six = 0 := rfl
+    rw [hu.1, hp, List.take_left' (by rw [hWl]; rfl)]; simp
+
+theorem bytes_nib (six : Bool) (vol : Nat) :
+    (create Trk .nib six vol).bytes = ((List.range 35).map fun t => chunkOf .nib six vol t).flatten := rfl
+
+/-- the bytes of the variant's image: 35 track buffers of `capOf v` bytes each -/
+theorem bytes_create (v : Variant) (six : Bool) (vol : Nat) :
+    (createV v six vol).bytes = ((List.range 35).map fun t => chunkOf v six vol t).flatten := by
+  cases v
+  · rfl
+  · show nb2Bytes (create Trk .nib six vol).bytes = _
+    unfold nb2Bytes
+    congr 1
+    apply List.map_congr_left
+    intro t ht
+    rw [bytes_nib]
+    have := slice_flatten_chunks (fun t => chunkOf .nib six vol t) nibCap 35
+      (fun i _ => (chunk_facts .nib six vol i).1) t (List.mem_range.1 ht)
+    rw [this]; rfl
+  · rfl
+  · rfl
+
+theorem bytes_create_length (v : Variant) (six : Bool) (vol : Nat) :
+    (createV v six vol).bytes.length = 35 * capOf v := by
   rw [bytes_create]
-  exact length_flatten_chunks _ _ 35 (fun i _ => chunk_len kind six vol i)
+  exact length_flatten_chunks _ _ 35 (fun i _ => (chunk_facts v six vol i).1)
 
-theorem offsOf_eq (kind : ImgKind) (t : Nat) : offsOf kind t = t * capOf kind := by
-  cases kind
+theorem offsOf_eq (v : Variant) (t : Nat) : offsOf v t = t * capOf v := by
+  cases v
+  · rfl
   · rfl
   · rfl
   · show (3 + 13 * t) * 512 - 1536 = t * (13 * 512); omega
 
-theorem slice_create (kind : ImgKind) (six : Bool) (vol t : Nat) (ht : t < 35) :
-    (((create Trk kind six vol).bytes.drop (offsOf kind t)).take (capOf kind)) =
-      formatBuf Trk (fOf kind six) vol t (capOf kind * 8) := by
+theorem slice_create (v : Variant) (six : Bool) (vol t : Nat) (ht : t < 35) :
+    (((createV v six vol).bytes.drop (offsOf v t)).take (capOf v)) = chunkOf v six vol t := by
   rw [bytes_create, offsOf_eq]
-  exact slice_flatten_chunks _ _ 35 (fun i _ => chunk_len kind six vol i) t ht
+  exact slice_flatten_chunks _ _ 35 (fun i _ => (chunk_facts v six vol i).1) t ht
 
-theorem kind_create (kind : ImgKind) (six : Bool) (vol : Nat) : (create Trk kind six vol).kind = kind := by
-  cases kind <;> rfl
-
-theorem tmap_woz1 (six : Bool) (vol : Nat) : (create Trk .woz1 six vol).tmap = tmapCreate := rfl
-theorem tmap_woz2 (six : Bool) (vol : Nat) : (create Trk .woz2 six vol).tmap = tmapCreate := rfl
-theorem offset_woz2 (six : Bool) (vol : Nat) : (create Trk .woz2 six vol).offset = 1536 := rfl
+theorem tmap_woz1 (six : Bool) (vol : Nat) : (createV .woz1 six vol).tmap = tmapCreate := rfl
+theorem tmap_woz2 (six : Bool) (vol : Nat) : (createV .woz2 six vol).tmap = tmapCreate := rfl
+theorem offset_woz2 (six : Bool) (vol : Nat) : (createV .woz2 six vol).offset = 1536 := rfl
 
 theorem ents_woz1 (six : Bool) (vol : Nat) :
-    (create Trk .woz1 six vol).ents = (List.range 35).map fun _ => (⟨0, 0, nOf .woz1 six⟩ : Ent) := rfl
+    (createV .woz1 six vol).ents = (List.range 35).map fun _ => (⟨0, 0, nOf .woz1 six⟩ : Ent) := rfl
 
 theorem ents_woz2 (six : Bool) (vol : Nat) :
-    (create Trk .woz2 six vol).ents = ((List.range 35).map fun t => (⟨3 + woz2Blocks * t, woz2Blocks, nOf .woz2 six⟩ : Ent)) ++
+    (createV .woz2 six vol).ents = ((List.range 35).map fun t => (⟨3 + woz2Blocks * t, woz2Blocks, nOf .woz2 six⟩ : Ent)) ++
       List.replicate 125 (⟨0, 0, 0⟩ : Ent) := rfl
 
 theorem entry_woz1 (six : Bool) (vol t : Nat) (ht : t < 35) :
-    (create Trk .woz1 six vol).ents[t]? = some ⟨0, 0, nOf .woz1 six⟩ := by
+    (createV .woz1 six vol).ents[t]? = some ⟨0, 0, nOf .woz1 six⟩ := by
   rw [ents_woz1, List.getElem?_map, List.getElem?_range ht]; rfl
 
 theorem entry_woz2 (six : Bool) (vol t : Nat) (ht : t < 35) :
-    (create Trk .woz2 six vol).ents[t]? = some ⟨3 + woz2Blocks * t, woz2Blocks, nOf .woz2 six⟩ := by
+    (createV .woz2 six vol).ents[t]? = some ⟨3 + woz2Blocks * t, woz2Blocks, nOf .woz2 six⟩ := by
   rw [ents_woz2, List.getElem?_append_left (by rw [List.length_map, List.length_range]; exact ht), List.getElem?_map,
     List.getElem?_range ht]; rfl
 
-theorem numTracks_create (kind : ImgKind) (six : Bool) (vol : Nat) : numTracks (create Trk kind six vol) = .ok 35 := by
-  cases kind
+theorem numTracks_create (v : Variant) (six : Bool) (vol : Nat) : numTracks (createV v six vol) = .ok 35 := by
+  cases v
   · rfl
-  · simp only [numTracks, kind_create, ents_woz1, List.length_map, List.length_range]
-  · have hn : nOf .woz2 six ≠ 0 := ((facts .woz2 six).2.2.2.2.2.2.2 (by decide)).1
-    have hl : (create Trk .woz2 six vol).ents.length = 160 := by
+  · rfl
+  · have hk : (createV .woz1 six vol).kind = .woz1 := rfl
+    simp only [numTracks, hk, ents_woz1, List.length_map, List.length_range]
+  · have hn : nOf .woz2 six ≠ 0 := (facts .woz2 six).2.2.2.2.2.2.2.1
+    have hk : (createV .woz2 six vol).kind = .woz2 := rfl
+    have hl : (createV .woz2 six vol).ents.length = 160 := by
       rw [ents_woz2, List.length_append, List.length_map, List.length_range, List.length_replicate]
-    simp only [numTracks, kind_create]
+    simp only [numTracks, hk]
     rw [if_neg (by rw [hl]; omega), List.take_of_length_le (by rw [hl]; omega), ents_woz2, List.filter_append]
     have h1 : ((List.range 35).map fun t => (⟨3 + woz2Blocks * t, woz2Blocks, nOf .woz2 six⟩ : Ent)).filter
         (fun e => decide (e.bitCount ≠ 0)) = (List.range 35).map fun t => (⟨3 + woz2Blocks * t, woz2Blocks, nOf .woz2 six⟩ : Ent) := by
@@ -114,61 +226,122 @@ theorem numTracks_create (kind : ImgKind) (six : Bool) (vol : Nat) : numTracks (
       rw [List.eq_of_mem_replicate he]; simp
     rw [h1, h2, List.append_nil, List.length_map, List.length_range]
 
-/-- where `create` puts the tracks: through the TMAP (WOZ) to pairwise disjoint buffers inside the image -/
-theorem layout_create (kind : ImgKind) (six : Bool) (vol : Nat) :
-    Layout (create Trk kind six vol) (offsOf kind) (capOf kind) (nOf kind six) := by
-  have hlen := bytes_create_length kind six vol
-  have hf := facts kind six
-  refine ⟨numTracks_create kind six vol, ?_, ?_, ?_, hf.2.2.2.2.1, hf.2.2.2.2.2.1⟩
+/-- **NIB and NB2 layout, for any track capacity**: an image of the NIB family whose byte buffer holds 35
+tracks of `trkCap` bytes locates track `t` at `t * trkCap`; the 35 buffers are inside and pairwise disjoint. -/
+theorem nib_layout (img : TrackImg) (cap : Nat) (hk : img.kind = .nib) (hc : img.trkCap = cap) (hpos : 0 < cap)
+    (hl : img.bytes.length = 35 * cap) : Layout img (fun t => t * cap) cap (cap * 8) := by
+  refine ⟨by simp only [numTracks, hk], ?_, ?_, ?_, by omega, by omega⟩
   · intro t ht
-    have hin : (t + 1) * capOf kind ≤ 35 * capOf kind := Nat.mul_le_mul_right _ (by omega)
+    have hin : (t + 1) * cap ≤ 35 * cap := Nat.mul_le_mul_right _ (by omega)
+    unfold locate
+    rw [hk]
+    simp only []
+    rw [hc, hl, if_pos hin]
+  · intro t ht
+    rw [hl]
+    have : (t + 1) * cap ≤ 35 * cap := Nat.mul_le_mul_right _ (by omega)
+    rw [Nat.succ_mul] at this; exact this
+  · intro t u _ _ hne
+    rcases Nat.lt_or_gt_of_ne hne with h | h
+    · left
+      have : (t + 1) * cap ≤ u * cap := Nat.mul_le_mul_right _ (by omega)
+      rw [Nat.succ_mul] at this; exact this
+    · right
+      have : (u + 1) * cap ≤ t * cap := Nat.mul_le_mul_right _ (by omega)
+      rw [Nat.succ_mul] at this; exact this
+
+/-- `Nib::from_bytes` accepts exactly the two sizes and yields an image with the layout of its capacity -/
+theorem nibFromBytes_layout (six : Bool) (bytes : List Nat) (cap : Nat) (hcap : cap = nibCap ∨ cap = nb2Cap)
+    (hl : bytes.length = 35 * cap) :
+    ∃ img, nibFromBytes six bytes = some img ∧ img.bytes = bytes ∧ img.trkCap = cap ∧
+      Layout img (fun t => t * cap) cap (cap * 8) := by
+  rcases hcap with h | h <;> subst h
+  · refine ⟨{ kind := .nib, six := six, tmap := [], ents := [], offset := 0, trkCap := nibCap, bytes := bytes, headPtr := none },
+      ?_, rfl, rfl, nib_layout _ nibCap rfl rfl (by decide) hl⟩
+    unfold nibFromBytes; rw [if_pos hl]
+  · have hne : ¬ bytes.length = 35 * nibCap := by rw [hl]; decide
+    refine ⟨{ kind := .nib, six := six, tmap := [], ents := [], offset := 0, trkCap := nb2Cap, bytes := bytes, headPtr := none },
+      ?_, rfl, rfl, nib_layout _ nb2Cap rfl rfl (by decide) hl⟩
+    unfold nibFromBytes; rw [if_neg hne, if_pos hl]
+
+/-- the NB2 image of the theorems is what `Nib::from_bytes` makes of the cut-down NIB bytes -/
+theorem createV_nb2_fromBytes (six : Bool) (vol : Nat) :
+    nibFromBytes six (nb2Bytes (create Trk .nib six vol).bytes) = some (createV .nb2 six vol) := by
+  have hl : (nb2Bytes (create Trk .nib six vol).bytes).length = 35 * nb2Cap := bytes_create_length .nb2 six vol
+  have hne : ¬ (nb2Bytes (create Trk .nib six vol).bytes).length = 35 * nibCap := by rw [hl]; decide
+  unfold nibFromBytes; rw [if_neg hne, if_pos hl]
+  rfl
+
+/-- where the tracks of the variant's image live: through the TMAP (WOZ) to pairwise disjoint buffers -/
+theorem layout_create (v : Variant) (six : Bool) (vol : Nat) :
+    Layout (createV v six vol) (offsOf v) (capOf v) (nOf v six) := by
+  have hlen := bytes_create_length v six vol
+  have hf := facts v six
+  cases v
+  · exact nib_layout _ nibCap rfl rfl (by decide) hlen
+  · exact nib_layout _ nb2Cap rfl rfl (by decide) hlen
+  all_goals
+    refine ⟨numTracks_create _ six vol, ?_, ?_, ?_, hf.2.2.2.2.1, hf.2.2.2.2.2.1⟩
+  · intro t ht
+    have hin : (t + 1) * capOf .woz1 ≤ 35 * capOf .woz1 := Nat.mul_le_mul_right _ (by omega)
     have hidx : getTrkIdx tmapCreate t = .ok t := tmapCreate_lookup ⟨t, ht⟩
-    cases kind
-    · have hin' : (t + 1) * nibCap ≤ (create Trk .nib six vol).bytes.length := by rw [hlen]; exact hin
-      unfold locate
-      rw [kind_create]
-      simp only []
-      rw [if_pos hin']
-      rfl
-    · have hw := (hf.2.2.2.2.2.2.2 (by decide))
-      have hin' : (t + 1) * woz1Cap ≤ (create Trk .woz1 six vol).bytes.length := by rw [hlen]; exact hin
-      unfold locate
-      rw [kind_create]
-      simp only []
-      rw [tmap_woz1, hidx]
-      simp only []
-      rw [entry_woz1 six vol t ht]
-      simp only []
-      rw [if_pos ⟨hw.1, hw.2⟩, if_pos hin']
-      rfl
-    · have hw := (hf.2.2.2.2.2.2.2 (by decide))
-      have hw2 : nOf .woz2 six ≤ 13 * 512 * 8 := hw.2
-      have hin' : (t + 1) * (13 * 512) ≤ 35 * (13 * 512) := hin
-      have hlen' : (create Trk .woz2 six vol).bytes.length = 35 * (13 * 512) := hlen
-      unfold locate
-      rw [kind_create]
-      simp only []
-      rw [tmap_woz2, hidx]
-      simp only []
-      rw [entry_woz2 six vol t ht]
-      simp only []
-      rw [offset_woz2, hlen']
-      rw [if_neg hw.1, if_neg (by show ¬ (3 + 13 * t) * 512 < 1536; omega),
-        if_neg (by show ¬ ((3 + 13 * t) * 512 - 1536 + 13 * 512 > 35 * (13 * 512) ∨
-          nOf .woz2 six > ((3 + 13 * t) * 512 - 1536 + 13 * 512 - ((3 + 13 * t) * 512 - 1536)) * 8); omega)]
-      rfl
+    have hw := hf.2.2.2.2.2.2.2
+    have hin' : (t + 1) * woz1Cap ≤ (createV .woz1 six vol).bytes.length := by rw [hlen]; exact hin
+    have hk : (createV .woz1 six vol).kind = .woz1 := rfl
+    unfold locate
+    rw [hk]
+    simp only []
+    rw [tmap_woz1, hidx]
+    simp only []
+    rw [entry_woz1 six vol t ht]
+    simp only []
+    rw [if_pos ⟨hw.1, hw.2⟩, if_pos hin']
+    rfl
   · intro t ht
     rw [hlen, offsOf_eq]
-    have : (t + 1) * capOf kind ≤ 35 * capOf kind := Nat.mul_le_mul_right _ (by omega)
+    have : (t + 1) * capOf .woz1 ≤ 35 * capOf .woz1 := Nat.mul_le_mul_right _ (by omega)
     rw [Nat.succ_mul] at this; exact this
   · intro t u ht hu hne
     rw [offsOf_eq, offsOf_eq]
     rcases Nat.lt_or_gt_of_ne hne with h | h
     · left
-      have : (t + 1) * capOf kind ≤ u * capOf kind := Nat.mul_le_mul_right _ (by omega)
+      have : (t + 1) * capOf .woz1 ≤ u * capOf .woz1 := Nat.mul_le_mul_right _ (by omega)
       rw [Nat.succ_mul] at this; exact this
     · right
-      have : (u + 1) * capOf kind ≤ t * capOf kind := Nat.mul_le_mul_right _ (by omega)
+      have : (u + 1) * capOf .woz1 ≤ t * capOf .woz1 := Nat.mul_le_mul_right _ (by omega)
+      rw [Nat.succ_mul] at this; exact this
+  · intro t ht
+    have hin : (t + 1) * capOf .woz2 ≤ 35 * capOf .woz2 := Nat.mul_le_mul_right _ (by omega)
+    have hidx : getTrkIdx tmapCreate t = .ok t := tmapCreate_lookup ⟨t, ht⟩
+    have hw := hf.2.2.2.2.2.2.2
+    have hw2 : nOf .woz2 six ≤ 13 * 512 * 8 := hw.2
+    have hin' : (t + 1) * (13 * 512) ≤ 35 * (13 * 512) := hin
+    have hlen' : (createV .woz2 six vol).bytes.length = 35 * (13 * 512) := hlen
+    have hk : (createV .woz2 six vol).kind = .woz2 := rfl
+    unfold locate
+    rw [hk]
+    simp only []
+    rw [tmap_woz2, hidx]
+    simp only []
+    rw [entry_woz2 six vol t ht]
+    simp only []
+    rw [offset_woz2, hlen']
+    rw [if_neg hw.1, if_neg (by show ¬ (3 + 13 * t) * 512 < 1536; omega),
+      if_neg (by show ¬ ((3 + 13 * t) * 512 - 1536 + 13 * 512 > 35 * (13 * 512) ∨
+        nOf .woz2 six > ((3 + 13 * t) * 512 - 1536 + 13 * 512 - ((3 + 13 * t) * 512 - 1536)) * 8); omega)]
+    rfl
+  · intro t ht
+    rw [hlen, offsOf_eq]
+    have : (t + 1) * capOf .woz2 ≤ 35 * capOf .woz2 := Nat.mul_le_mul_right _ (by omega)
+    rw [Nat.succ_mul] at this; exact this
+  · intro t u ht hu hne
+    rw [offsOf_eq, offsOf_eq]
+    rcases Nat.lt_or_gt_of_ne hne with h | h
+    · left
+      have : (t + 1) * capOf .woz2 ≤ u * capOf .woz2 := Nat.mul_le_mul_right _ (by omega)
+      rw [Nat.succ_mul] at this; exact this
+    · right
+      have : (u + 1) * capOf .woz2 ≤ t * capOf .woz2 := Nat.mul_le_mul_right _ (by omega)
       rw [Nat.succ_mul] at this; exact this
 
 theorem secIds_parts (six : Bool) :
@@ -176,52 +349,33 @@ theorem secIds_parts (six : Bool) :
     (∀ i ∈ secIds six, i < 256) ∧ (secIds six).Nodup ∧ (secIds six).length = (if six then 16 else 13) := by
   cases six <;> decide
 
-/-- the bits of every track of a created image: what `format` wrote, and for NIB the `FF` rest of the buffer -/
-theorem trackBits_create (kind : ImgKind) (six : Bool) (vol t : Nat) (ht : t < 35) :
-    trackBits (create Trk kind six vol).bytes (offsOf kind t) (capOf kind) (nOf kind six) =
-      trackW (fOf kind six) vol t (secIds six) ++ List.replicate (8 * pOf kind six) true := by
-  have hf := facts kind six
+/-- the bits of every track of the variant's image: what `format` wrote, and for NIB / NB2 the `FF` rest -/
+theorem trackBits_create (v : Variant) (six : Bool) (vol t : Nat) (ht : t < 35) :
+    trackBits (createV v six vol).bytes (offsOf v t) (capOf v) (nOf v six) =
+      trackW (fOf v six) vol t (secIds six) ++ List.replicate (8 * pOf v six) true := by
   unfold trackBits
-  have hsix : (fOf kind six).six = six := rfl
-  rw [slice_create kind six vol t ht, (formatBuf_unpack (fOf kind six) hf.1 vol t (capOf kind) hf.2.1).1, hsix]
-  have hWl := trackW_length (fOf kind six) hf.1 vol t (secIds six)
-  cases kind
-  · -- NIB: the whole buffer
-    have h8 : capOf .nib * 8 - (fOf .nib six).bitCount (secIds six).length = 8 * pOf .nib six := by
-      cases six <;> decide
-    have hfill : decide ((fOf .nib six).syncBits ≤ 8) = true := by cases six <;> rfl
-    rw [h8, hfill]
-    apply List.take_of_length_le
-    rw [List.length_append, hWl, List.length_replicate]
-    have := hf.2.2.1
-    show _ ≤ nOf .nib six
-    omega
-  · have hp : pOf .woz1 six = 0 := rfl
-    rw [hp, List.take_left' (by rw [hWl]; rfl)]; simp
-  · have hp : pOf .woz2 six = 0 := rfl
-    rw [hp, List.take_left' (by rw [hWl]; rfl)]; simp
+  rw [slice_create v six vol t ht]
+  exact (chunk_facts v six vol t).2
 
-/-- **`create` establishes the image invariant** — NIB, WOZ1, WOZ2; 16 sectors 6&2 and 13 sectors 5&3; every
-volume number: all 35 tracks are canonically formatted tracks of the same shape holding the formatter's
-contents (zeros / never written), the head position (`None`, i.e. bit 0) is inside the closing zeros of the
-last sync byte. -/
-theorem create_inv (kind : ImgKind) (six : Bool) (vol : Nat) (hv : vol < 256) :
+/-- **`create` (and `from_bytes` of an NB2 file) establishes the image invariant** — NIB, NB2, WOZ1, WOZ2; 16
+sectors 6&2 and 13 sectors 5&3; every volume number. -/
+theorem create_inv (v : Variant) (six : Bool) (vol : Nat) (hv : vol < 256) :
     ∃ o gaps secs0 a c0 k,
-      ImgInv (create Trk kind six vol) (offsOf kind) (capOf kind) (nOf kind six) vol o gaps (secIds six)
+      ImgInv (createV v six vol) (offsOf v) (capOf v) (nOf v six) vol o gaps (secIds six)
         (fun _ => secs0) a c0 k ∧
-      secs0.map (·.id) = secIds six ∧ (∀ s ∈ secs0, s.fld = fld0 (fOf kind six)) := by
+      secs0.map (·.id) = secIds six ∧ (∀ s ∈ secs0, s.fld = fld0 (fOf v six)) := by
   obtain ⟨e, hid, hnd, hl⟩ := secIds_parts six
-  have hf := facts kind six
-  have hfm := fmtOf_create kind six vol
+  have hf := facts v six
+  have hfm := fmtOf_create v six vol
   have hlen1 : ((secIds six).take ((secIds six).length - 1)).length + 1 = (secIds six).length := by
     rw [List.length_take, hl]; cases six <;> simp
-  have inv := fresh_inv (create Trk kind six vol) (offsOf kind) (capOf kind) (nOf kind six) vol (pOf kind six)
+  have inv := fresh_inv (createV v six vol) (offsOf v) (capOf v) (nOf v six) vol (pOf v six)
     ((secIds six).take ((secIds six).length - 1)) (if six then 15 else 3)
-    (layout_create kind six vol) hv (by rw [hfm]; exact hf.1) (by cases kind <;> rfl)
+    (layout_create v six vol) hv (by rw [hfm]; exact hf.1) (by cases v <;> rfl)
     (by rw [hfm]; exact hf.2.2.2.2.2.2.1) (by rw [← e]; exact hid) (by rw [← e]; exact hnd)
     (by rw [List.length_take, hl]; cases six <;> simp) (by rw [hfm]; exact hf.2.2.2.1)
     (by rw [hfm, hlen1]; exact hf.2.2.1)
-    (by intro t ht; rw [hfm, ← e]; exact trackBits_create kind six vol t ht)
+    (by intro t ht; rw [hfm, ← e]; exact trackBits_create v six vol t ht)
   rw [← e] at inv
   refine ⟨_, _, _, _, _, _, inv, ?_, ?_⟩
   · conv => rhs; rw [e]
